@@ -77,11 +77,21 @@ CHECKS = {
             "Every operand pair a type-checked query can produce from the alphabet (null, Int64/Uint64 boundaries, floats incl. -0.0, strings, booleans, lists up to length 2 with null and mixed-sign elements) for all 20 operators, at the function layer and through 144 compiled queries; results must equal the reference definitions; panics are violations.",
             "Ordering of lists containing null elements is undefined by the documentation and skipped; regex semantics reuse the regex crate.",
             "DESIGN.md §4 C07"),
+    "C16": ("exploration",
+            "exhaustive enumeration of values / types over boundary alphabets and of every distinct IR of the enumerated query space, each through the real serde impls (RON, JSON, untagged JSON) and Display/parse, compared for equality",
+            "(a) every distinct compiled query (k<=2 quick / k<=3 thorough, ~66k / millions of IRs): IRQuery via RON and JSON, IndexedQuery via RON, and re-indexing the round-tripped IRQuery gives the same IndexedQuery; (b) 248 values (integer / float boundaries, escapes, non-BMP text, lists to nesting 3): RON, pretty RON and JSON bit-identical, untagged JSON equal; (c) every type over 3 bases x depth<=5/7 x all nullability masks + depths up to the limit (30): parse, Display, Display->parse, RON, JSON.",
+            "RON and JSON are taken as the supported text formats; one known finding (Enum in the untagged form).",
+            "DESIGN.md §4 C16"),
     "C17": ("exploration",
             "exhaustive enumeration of all pairs/triples of a 90-type family and all (type, value) pairs against reference subtype / meet / typing relations",
             "All pairs and triples over 3 base names x list depth <= 3 x every nullability mask: intersect is commutative, idempotent, associative, the greatest common subtype, None iff shapes differ; subtype is a partial order; equal_ignoring_nullability is an equivalence; is_valid_value agrees with an independent typing relation and is monotone along subtyping.",
             "List depth <= 3 stands for deeper lists (operations recurse uniformly).",
             "DESIGN.md §4 C17"),
+    "C18": ("exploration",
+            "exhaustive enumeration of (value, target type) over a boundary alphabet x 39 compiled-in target types, decoded through the real TryIntoStruct from rows and from edge parameters, against an independent representability oracle",
+            "Every value (null, integers at every i8..u64 and f32/f64 exactness boundary, floats, strings, booleans, enums, lists to nesting 2) x every target (all integer widths incl. 128-bit, f32, f64, String, bool, char, Option, Vec, tuples, nested) from a row with an extra key and from EdgeParameters, plus all boundary-integer pairs into a two-field struct with an optional field: representable => exactly that value (floats bit-exact), integer out of range or wrong kind => error, never a panic.",
+            "Target family fixed at compile time; f64->f32 narrowing only counted; two known findings (Enum todo!(), inexact int -> float).",
+            "DESIGN.md §4 C18"),
     "C08": ("exploration",
             "exhaustive enumeration of all value pairs and triples over a boundary alphabet, against reference equality/order (i128)",
             "Every ordered pair and triple of a 44-value (quick) / larger (thorough) alphabet is compared with the real PartialEq/PartialOrd impls; equivalence, total-order and numeric-integer laws are checked on each. Exhaustive over the alphabet, which has one representative per class the comparison code distinguishes (sign, i64/u64 range overlap, kinds, nesting).",
